@@ -33,7 +33,8 @@ var effectFreePrefixes = []string{
 	"com.tuntun.rangers/node/src/common.HexStringToAddress", "com.tuntun.rangers/node/src/common.BigToAddress",
 	"com.tuntun.rangers/node/src/common.IsProposal", "com.tuntun.rangers/node/src/common.GetBlockHeight", "com.tuntun.rangers/node/src/common.IsMainnet", "com.tuntun.rangers/node/src/common.IsRobin", "com.tuntun.rangers/node/src/common.IsDEV",
 	"com.tuntun.rangers/node/src/common.GetChainId", "com.tuntun.rangers/node/src/common.Sha256", "com.tuntun.rangers/node/src/common.IsSub",
-	"(*encoding/json.", "encoding/json.Marshal", "encoding/binary.", "(encoding/binary.",
+	"(*encoding/json.", "encoding/json.Marshal",
+	"com.tuntun.rangers/node/src/middleware/mysql.", "(*com.tuntun.rangers/node/src/middleware/notify.Bus).Publish", "encoding/binary.", "(encoding/binary.",
 	"(*bytes.Buffer).", "(error).Error", "(*errors.errorString).Error", "sort.Search",
 	"(reflect.Type).", "(reflect.Value).Kind", "(reflect.Value).Type", "(reflect.Value).Len", "(reflect.Value).IsNil", "(reflect.Value).Uint", "(reflect.Value).Int", "(reflect.Value).Bool", "(reflect.Value).Bytes", "(reflect.Value).String", "reflect.TypeOf", "reflect.ValueOf",
 	"(reflect.Kind).String", "(*reflect.rtype).",
@@ -188,6 +189,38 @@ func (vc *VC) call(fr *Frame, st *State, ins ssa.Instruction, cc *ssa.CallCommon
 	} else if cc.IsInvoke() {
 		con = vc.ifaceContract(cc)
 	}
+	if con == nil {
+		for _, ec := range vc.P.Externs[full] {
+			if at := ec.Options["argtype"]; at != "" {
+				// argtype=IDX:TYPE restricts the contract to calls whose IDX-th argument has this static type
+				parts := strings.SplitN(at, ":", 2)
+				var idx int
+				fmt.Sscan(parts[0], &idx)
+				src := cc.Args
+				if idx >= len(src) {
+					continue
+				}
+				var v ssa.Value = src[idx]
+				if mi, ok := v.(*ssa.MakeInterface); ok {
+					v = mi.X
+				}
+				if len(parts) < 2 || typeKey(v.Type()) != parts[1] {
+					continue
+				}
+				// boxed arguments are passed to the contract unboxed
+				if _, ok := cc.Args[idx].(*ssa.MakeInterface); ok {
+					ai := idx
+					if cc.IsInvoke() {
+						ai++
+					}
+					args[ai] = vc.operand(fr, st, v)
+					argTypes[ai] = v.Type()
+				}
+			}
+			con = ec
+			break
+		}
+	}
 	if con != nil {
 		if con.opt("inline") && callee != nil {
 			setRes(vc.inlineCall(fr, st, callee, args, nil, pos))
@@ -300,6 +333,12 @@ func (vc *VC) applyContract(fr *Frame, st *State, con *Contract, callee *ssa.Fun
 	}
 	names := map[string]SVal{}
 	pnames := paramNames(callee, sig, cc)
+	if con.Options["extern"] != "" {
+		pnames = nil
+		for i := range args {
+			pnames = append(pnames, fmt.Sprintf("arg%d", i))
+		}
+	}
 	for i, n := range pnames {
 		if i < len(args) && n != "" && n != "_" {
 			names[n] = vc.sval(args[i], argTypes[i])
@@ -331,11 +370,12 @@ func (vc *VC) applyContract(fr *Frame, st *State, con *Contract, callee *ssa.Fun
 		for _, m := range con.Modifies {
 			vc.havocTarget(env, st, m, con)
 		}
-		if len(con.Modifies) > 0 || con.opt("allocates") {
-			nt := vc.declFresh("top", sortRef)
-			vc.assume(st, mk(app("<=", st.top, nt), sortBool))
-			st.top = nt
-		}
+	}
+	if !(con.HasMod == false && !con.opt("pure")) {
+		// the callee may have allocated objects: the allocation counter may have grown (havocAll does this itself)
+		nt := vc.declFresh("top", sortRef)
+		vc.assume(st, mk(app("<=", st.top, nt), sortBool))
+		st.top = nt
 	}
 	// results
 	var resVals []Val
@@ -499,9 +539,9 @@ func (vc *VC) modTarget(env *SpecEnv, m *SExpr) modTgt {
 			env.fail("unknown heap component %s", tn)
 		}
 		if m.Name == "ghost" && len(m.Args) == 1 {
-			comp := "GH:" + m.Args[0].String()
-			if _, ok := vc.compSort[comp]; !ok {
-				env.fail("unknown ghost %s", comp)
+			comp, ok := vc.ghostComp(m.Args[0].String())
+			if !ok {
+				env.fail("unknown ghost %s", m.Args[0].String())
 			}
 			return modTgt{kind: "comp", comp: comp}
 		}
